@@ -323,6 +323,10 @@ func Canon(v ssa.Value) string {
 			if fv, ok := x.X.(*ssa.FreeVar); ok {
 				return "free:" + fv.Name()
 			}
+			if al, ok := x.X.(*ssa.Alloc); ok {
+				// load of an escaping local cell (captured variable): identified by the cell
+				return "*cell:" + al.Parent().Name() + "." + al.Name()
+			}
 			if ia, ok := x.X.(*ssa.IndexAddr); ok {
 				return Canon(ia.X) + "[" + Canon(ia.Index) + "]"
 			}
